@@ -4,7 +4,7 @@ import json
 
 import stages
 from stages import (apalache_inductive, calls, events_trace, generated_streams, guard, harness_calls, mc, product,
-                    streams, tla_set)
+                    steps, streams, tla_set)
 from vlib import log
 
 ALLK = ["std", "lf", "ll"]
@@ -150,6 +150,8 @@ def c05(ck, thorough):
     mc(ck, "ACOverlap", "c05_overlap", overlap_consts([False], [True], thorough),
        ["OverlapCorrect", "StateSane"], view="View")
     calls(ck, "c05_prefilter", "prefilter", scale=4 if thorough else 1, mks=ALLK, an="both", flav="all")
+    # every prefilter answer given during real searches is sound for the span it was asked about
+    steps(ck, "c05", scale=4 if thorough else 1, mks=ALLK)
 
 
 def c06(ck, thorough):
@@ -355,6 +357,8 @@ def c19(ck, thorough):
        search_consts(ALLK, [False, True], [False, True], [False, True], thorough),
        SEARCH_INV, ["PositionMonotone"])
     calls(ck, "c19_work", "work", scale=3 if thorough else 1, mks=ALLK, an="both", flav="all")
+    # every transition of every recorded search with its offset: strictly increasing, inside the span
+    steps(ck, "c19", scale=4 if thorough else 1, mks=ALLK)
 
 
 CHECKS = {
@@ -463,6 +467,43 @@ def selftest():
     rej = {x["line"] for x in r.tagged("REJECT")}
     results["corrupted read size / dropped closure events rejected by TraceStream"] = \
         want["read"] in rej and want["drop"] in rej
+
+    r = run_tlc("TraceStreamContract", os.path.join(SPEC, "TraceStreamContract.cfg"), "st_streamc",
+                env={"TRACE": pre + ".bad.ndjson"}, workers=2)
+    rejc = {x["line"] for x in r.tagged("REJECT")}
+    results["dropped closure events rejected by TraceStreamContract (a changed read size alone is not)"] = \
+        want["drop"] in rejc and want["read"] not in rejc
+
+    # 3b. search steps: swap two transition offsets of one run, make a prefilter answer of another skip a match
+    pre = os.path.join(wd, "p")
+    run_harness(["steps", "--out", pre, "--shards", 1, "--scale", 1, "--mks", "lf"])
+    lines = open(pre + ".0.ndjson").read().splitlines()
+    done = set()
+    want = {}
+    for i, l in enumerate(lines):
+        e = json.loads(l)
+        if e.get("ev") != "run" or e["out"] != "ok":
+            continue
+        ts = [k for k, o in enumerate(e["ops"]) if o[0] == "T"]
+        if "swap" not in done and len(ts) >= 3:
+            e["ops"][ts[0]], e["ops"][ts[1]] = e["ops"][ts[1]], e["ops"][ts[0]]
+            lines[i] = json.dumps(e)
+            done.add("swap")
+            want["swap"] = i + 1
+        elif "skip" not in done and e["res"] and e["ops"] and e["ops"][0][0] == "P" and e["ops"][0][1] == 2 \
+                and e["res"][1] + 1 < e["e"]:
+            e["ops"][0][2] = e["res"][1] + 1          # "possible start" just after the real match's start
+            lines[i] = json.dumps(e)
+            done.add("skip")
+            want["skip"] = i + 1
+        if len(done) == 2:
+            break
+    open(pre + ".bad.ndjson", "w").write("\n".join(lines) + "\n")
+    r = run_tlc("TraceSearch", os.path.join(SPEC, "TraceSearch.cfg"), "st_steps",
+                env={"TRACE": pre + ".bad.ndjson"}, workers=2, deque=True)
+    rej = {x["line"] for x in r.tagged("REJECT")}
+    results["non-monotone transition offsets / a prefilter answer that skips a match rejected by TraceSearch"] = \
+        want.get("swap") in rej and want.get("skip") in rej
 
     # 4. the guard pages are armed
     p = subprocess.run([BIN, "guard", "--out", os.path.join(wd, "g"), "--shards", "1", "--poke", "true"],
